@@ -62,17 +62,31 @@ def cap_kind(ty):
     return 'UPSTREAM'
 
 
+def repr_operand(term, i):
+    """source text of the i-th call argument of a parsed call terminator"""
+    from mirparse import split_top, _find_call_paren, _find_assign
+    t = term.text
+    head = t[:t.rfind(' -> ')]
+    eq = _find_assign(head)
+    call = head[eq + 3:].strip() if eq >= 0 else head.strip()
+    k = _find_call_paren(call)
+    return split_top(call[k + 1:-1])[i].strip()
+
+
 class ThreadProgram:
     """A worker closure body prepared for abstract interpretation."""
 
-    def __init__(self, fn):
+    def __init__(self, fn, prog=None):
         fn.parse()
         self.fn = fn
         self.name = fn.name
-        self.blocks = fn.blocks
+        self.blocks = dict(fn.blocks)
+        self.local_types = dict(fn.local_types)
         self.notes = []
+        if prog is not None:
+            self.inline_consumers(prog)
         # registers: every local that is read in a block other than the one assigning it (conservatively: all)
-        self.locals = sorted(fn.local_types)
+        self.locals = sorted(self.local_types)
         self.kinds = {}
         for b in self.blocks.values():
             if b.cleanup:
@@ -85,7 +99,85 @@ class ThreadProgram:
             (s.text or '') for b in self.blocks.values() if not b.cleanup for s in b.stmts)))
 
     def guard_local(self, local):
-        return 'MutexGuard' in self.fn.local_types.get(local, '')
+        return 'MutexGuard' in self.local_types.get(local, '')
+
+    # ---- internal iteration: `iter.for_each(closure)` is the loop `while let Some(x) = iter.next() { closure(x) }`
+    # (the definition of Iterator::for_each for an iterator that does not override it).  The nested closure's MIR
+    # blocks are spliced into this body with renamed locals / blocks, so that its synchronisation calls become
+    # visible operations of the thread like any other.
+    def inline_consumers(self, prog):
+        from mirparse import parse_stmt, parse_term, Block
+        for bid in sorted(self.blocks):
+            b = self.blocks[bid]
+            if b.cleanup or b.term.kind != 'call' or not b.term.a['func']:
+                continue
+            func = b.term.a['func']
+            if parse_callee(func).key() != 'Iterator::for_each':
+                continue
+            m = re.search(r'::for_each::<(\{closure@[^{}]*\})>', func)
+            if not m:
+                raise Unsupported('MIRBMC: for_each with a callee that is not a closure literal in ' + self.name)
+            span = m.group(1)
+            cands = [f for n, f in prog.functions.items() if n.startswith(self.name + '::{closure#')]
+            nested = None
+            for f in cands:
+                f.parse()
+                if f.arg_types and span in f.arg_types[0]:
+                    nested = f
+            if nested is None or any(bb.term.kind == 'call' and bb.term.a['func'] and
+                                     parse_callee(bb.term.a['func']).key() == 'Iterator::for_each'
+                                     for bb in nested.blocks.values() if not bb.cleanup):
+                raise Unsupported('MIRBMC: body of the for_each closure %s not found / nested internal iteration' % span)
+            loff = max(self.local_types) + 3
+            boff = max(self.blocks) + 3
+            t_opt, t_disc = loff - 2, loff - 1
+            head, sw = boff - 2, boff - 1
+            args = b.term.a['args']
+            if args[0].place is None:
+                raise Unsupported('MIRBMC: for_each receiver is not a place')
+            it_local = args[0].place.local
+            cl_text = re.sub(r'^(move|copy) ', '', repr_operand(b.term, 1))
+            ret = b.term.a['target']
+            dest = b.term.a['dest']
+
+            def ren(text):
+                text = re.sub(r'\b_(\d+)\b', lambda mm: '_%d' % (int(mm.group(1)) + loff), text)
+                return re.sub(r'\bbb(\d+)\b', lambda mm: 'bb%d' % (int(mm.group(1)) + boff), text)
+            # block `bid`: statements kept, then fall into the loop head
+            nb = Block()
+            nb.stmts = list(b.stmts)
+            nb.term = parse_term('goto -> bb%d' % head)
+            self.blocks[bid] = nb
+            hb = Block()
+            hb.term = parse_term('_%d = <I as Iterator>::next(move _%d) -> [return: bb%d, unwind continue]' % (t_opt, it_local, sw))
+            self.blocks[head] = hb
+            sb = Block()
+            sb.stmts = [parse_stmt('_%d = discriminant(_%d)' % (t_disc, t_opt))]
+            # Some(x): bind the closure parameters, enter the closure body
+            entry = boff + min(nested.blocks)
+            bind = max(nested.blocks) + boff + 1
+            sb.term = parse_term('switchInt(move _%d) -> [0: bb%d, otherwise: bb%d]' % (t_disc, ret, bind))
+            self.blocks[sw] = sb
+            bb_ = Block()
+            bb_.stmts = [parse_stmt('_%d = %s' % (1 + loff, 'copy ' + cl_text)),
+                         parse_stmt('_%d = move ((_%d as Some).0: T)' % (2 + loff, t_opt))]
+            bb_.term = parse_term('goto -> bb%d' % entry)
+            self.blocks[bind] = bb_
+            for nid, nblk in nested.blocks.items():
+                if nblk.cleanup:
+                    continue
+                x = Block()
+                x.stmts = [parse_stmt(ren(st.text)) for st in nblk.stmts if st.kind != 'nop']
+                if nblk.term.kind == 'return':
+                    x.term = parse_term('goto -> bb%d' % head)
+                else:
+                    x.term = parse_term(ren(nblk.term.text))
+                self.blocks[nid + boff] = x
+            for l, ty in nested.local_types.items():
+                self.local_types[l + loff] = ty
+            self.local_types[t_opt] = 'std::option::Option<T>'
+            self.local_types[t_disc] = 'isize'
+            self.notes.append('Iterator::for_each at bb%d inlined as a loop over the closure %s' % (bid, nested.name))
 
 
 class Shared:
@@ -207,6 +299,10 @@ class Interp:
                 if pl.local == 1 and v is None and len(pl.proj) >= 1 and pr is pl.proj[0]:
                     v = Val('cap', cap_kind(pr[2]), pr[1])
                     continue
+                if (v is None or v.kind == 'unit') and len(pr) > 2 and pr[2] and cap_kind(pr[2]) != 'UPSTREAM':
+                    # a captured synchronisation object reached through a nested closure environment
+                    v = Val('cap', cap_kind(pr[2]), pr[1])
+                    continue
                 if v is None:
                     raise Unsupported('MIRBMC: field of unknown local _%d in %s' % (pl.local, self.p.name))
                 if v.kind == 'pair':
@@ -279,6 +375,8 @@ class Interp:
             return Val('unit')
         if k == 'cast':
             return self.operand(env, a[0])
+        if k == 'closure':
+            return Val('unit')      # a closure environment: its captured synchronisation objects are found by type
         raise Unsupported('MIRBMC: rvalue %s in %s' % (k, self.p.name))
 
     # ---- one step: visible op at block pc, then local blocks until the next visible block
